@@ -866,6 +866,21 @@ impl Synchronizer {
     }
 }
 
+/// Whether a `SendBlock` must be refused before any of its fields is interpreted.
+///
+/// The message is decoded in compatible mode, which does not look into extra fields. The message itself may
+/// not have any, the block may have at most one (the extension), and that one must be a well-formed `Bytes`:
+/// `extension()`, `calc_extra_hash()` and `into_view()` rely on it and panic otherwise.
+pub(crate) fn is_malformed_send_block(reader: &packed::SendBlockReader<'_>) -> bool {
+    let block = reader.block();
+    reader.has_extra_fields()
+        || block.count_extra_fields() > 1
+        || block
+            .extra_field(0)
+            .map(|data| packed::BytesReader::verify(data, false).is_err())
+            .unwrap_or(false)
+}
+
 #[async_trait]
 impl CKBProtocolHandler for Synchronizer {
     async fn init(&mut self, nc: Arc<dyn CKBProtocolContext + Sync>) {
@@ -897,7 +912,7 @@ impl CKBProtocolHandler for Synchronizer {
             Ok(msg) => {
                 let item = msg.to_enum();
                 if let packed::SyncMessageUnionReader::SendBlock(ref reader) = item {
-                    if reader.has_extra_fields() || reader.block().count_extra_fields() > 1 {
+                    if is_malformed_send_block(reader) {
                         info!(
                             "A malformed message from peer {}: \
                              excessive fields detected in SendBlock",
